@@ -14,36 +14,7 @@ pub type TokenId = u32;
 //@@ struct toktrie/src/toktree.rs TokRxInfo derive=Clone,Copy
 //@@ struct toktrie/src/toktree.rs TokTrie fields=info,nodes
 
-// ---------------------------------------------------------------- TrieWf
-pub open spec fn dh(d: Seq<nat>, e: int) -> nat { if e < d.len() { d[e] } else { 1 } }
-
-pub open spec fn step_ok(d: Seq<nat>, j: int) -> bool { d[j] >= 1 && d[j] <= d[j - 1] + 1 }
-pub open spec fn size_ok(nodes: Seq<TrieNode>, j: int) -> bool { nsize(nodes[j]) >= 1 && j + nsize(nodes[j]) <= nodes.len() }
-pub open spec fn deeper(nodes: Seq<TrieNode>, d: Seq<nat>, j: int, k: int) -> bool { (j < k < j + nsize(nodes[j])) ==> d[k] > d[j] }
-pub open spec fn next_ok(nodes: Seq<TrieNode>, d: Seq<nat>, j: int) -> bool {
-    (j + nsize(nodes[j]) < nodes.len()) ==> d[j + nsize(nodes[j])] <= d[j]
-}
-pub open spec fn np_ok(nodes: Seq<TrieNode>, d: Seq<nat>, j: int) -> bool {
-    nparents(nodes[j]) == d[j] - dh(d, j + nsize(nodes[j])) + 1
-}
-pub open spec fn tok_ok(nodes: Seq<TrieNode>, j: int, vocab: u32) -> bool {
-    ntok(nodes[j]) == NO_TOKEN || ntok(nodes[j]) < vocab
-}
-
-/// The flattened pre-order layout produced by TrieBuilder::serialize (ASSUMED to be established by the builder):
-/// d = depth of each node, subtree sizes nest, num_parents = number of levels closed after the subtree.
-pub open spec fn trie_wf(nodes: Seq<TrieNode>, d: Seq<nat>, vocab: u32) -> bool {
-    &&& nodes.len() >= 1
-    &&& d.len() == nodes.len()
-    &&& d[0] == 0
-    &&& nsize(nodes[0]) == nodes.len()
-    &&& forall|j: int| 1 <= j < nodes.len() ==> #[trigger] step_ok(d, j)
-    &&& forall|j: int| 0 <= j < nodes.len() ==> #[trigger] size_ok(nodes, j)
-    &&& forall|j: int, k: int| 0 <= j < nodes.len() && 0 <= k < nodes.len() ==> #[trigger] deeper(nodes, d, j, k)
-    &&& forall|j: int| 0 <= j < nodes.len() ==> #[trigger] next_ok(nodes, d, j)
-    &&& forall|j: int| 1 <= j < nodes.len() ==> #[trigger] np_ok(nodes, d, j)
-    &&& forall|j: int| 0 <= j < nodes.len() ==> #[trigger] tok_ok(nodes, j, vocab)
-}
+//@@ include common/triewf.vrs
 
 /// bytes on the path from the root to node j
 pub open spec fn path(nodes: Seq<TrieNode>, d: Seq<nat>, j: int) -> Seq<u8>
